@@ -121,13 +121,14 @@ class Checker(C.BaseChecker):
         bounds = [b for b in mon.get("interval_bounds", []) if "monitor_error" not in b]
         pis = mon.get("nonparametric_pi", [])
         if len(bounds) != len(pis):
-            return [self.v("monitor", f"{len(bounds)} bound computations vs {len(pis)} interval computations captured")]
+            st.probes["monitor_unavailable"] += 1  # probe points renamed / removed in this tree: clause 1 cannot be evaluated
+            return []
         fits = rec.extra.get("fits", [])
         holds = mon.get("feat_holdout", [])
         A = len(rec.profile["prediction_intervals"])
         for j, (b, cap) in enumerate(zip(bounds, pis)):
             if "monitor_error" in cap:
-                out.append(self.v("monitor", str(cap)[:200]))
+                st.probes["monitor_unavailable"] += 1
                 continue
             st.evaluations += 1
             # the conformity scores must describe the SAME lower / upper models whose predictions are reported for the
